@@ -1,11 +1,12 @@
 (* WorldTactics.v — tactics and small lemmas for case analysis over `step`. *)
 From RS Require Import Base Channel Pipeline Selector Script World.
 
+(* destruct the scrutinee of an innermost match occurring in H *)
 Ltac break_match_hyp H :=
   match type of H with
   | context [match ?x with _ => _ end] =>
-      match type of x with
-      | sumbool _ _ => destruct x
+      lazymatch x with
+      | context [match _ with _ => _ end] => fail
       | _ => destruct x eqn:?
       end
   end.
